@@ -37,7 +37,8 @@ def run_progs(out, sc, prop, params, label, nslices=12, shard_size=1500, backend
 
 VALUE_INVS = {
     "C01": ["Inv_C01"], "C03": ["Inv_C03"], "C07": ["Inv_C07_Accessors", "Inv_C07_AuthSplit", "Inv_C07_Recompose"],
-    "C11": ["Frame"], "C15": ["Inv_C15"], "C19": ["Inv_C19_StrTotal"], "C17": ["Inv_C07_AuthSplit"],
+    "C11": ["Frame"], "C15": ["Inv_C15"], "C19": ["Inv_C19_StrTotal"], "C17": ["Inv_C17", "Inv_C07_AuthSplit"],
+    "C06": ["Inv_C06"], "C13": ["Inv_C13"], "C16": ["Inv_C16"],
 }
 
 
